@@ -213,6 +213,75 @@ def variants(program):
     add('keep-only-narrows-in-place', 'mutant', keep_only_inplace,
         {'BRW-PURE'})
 
+    def filter_only_when_several(tree):
+        fun = find_func(tree, 'Browser.select_by')
+        doc = [s_ for s_ in fun.body if isinstance(s_, ast.Expr) and
+               isinstance(s_.value, ast.Constant)]
+        rest = [s_ for s_ in fun.body if s_ not in doc]
+        keep = [s_ for s_ in rest if isinstance(s_, ast.If)]
+        fun.body = doc + parse_stmts(
+            'respids = self._filter_items_id_by(**kwargs)\n'
+            'litems = [self.content[i] for i in sorted(respids)]\n'
+            'if len(litems) > 1 and (include or exclude):\n'
+            '    sincl, sexcl = set(include), set(exclude)\n'
+            '    litems = [item for item in litems if sincl.issubset(item) '
+            'and not sexcl.intersection(item)]\n') + keep + parse_stmts(
+                'return litems[0]')
+        return True
+    add('include-exclude-skipped-for-a-single-candidate', 'mutant',
+        filter_only_when_several, {'SELECT-SHAPE'},
+        note='seeded C17-2: a single keyword match is returned without '
+             'looking at its required / forbidden keys')
+
+    def filter_only_when_asked(tree):
+        fun = find_func(tree, 'Browser.select_by')
+        doc = [s_ for s_ in fun.body if isinstance(s_, ast.Expr) and
+               isinstance(s_.value, ast.Constant)]
+        rest = [s_ for s_ in fun.body if s_ not in doc]
+        keep = [s_ for s_ in rest if isinstance(s_, ast.If)]
+        fun.body = doc + parse_stmts(
+            'respids = self._filter_items_id_by(**kwargs)\n'
+            'litems = [self.content[i] for i in sorted(respids)]\n'
+            'if include or exclude:\n'
+            '    sincl, sexcl = set(include), set(exclude)\n'
+            '    litems = [item for item in litems if sincl.issubset(item) '
+            'and not sexcl.intersection(item)]\n') + keep + parse_stmts(
+                'return litems[0]')
+        return True
+    add('twin-filter-only-when-include-or-exclude-given', 'twin',
+        filter_only_when_asked)
+
+    def reject_in_place(tree):
+        fun = find_func(tree, 'Browser._filter_items_id_by')
+        ok = replace_first(
+            fun, lambda n: isinstance(n, ast.Assign) and txt(
+                n.value).startswith('set(range('),
+            lambda n: ast.Assign(targets=n.targets, value=parse_expr(
+                'None'), lineno=n.lineno))
+        ok = ok and replace_first(
+            fun, lambda n: isinstance(n, ast.BinOp) and isinstance(
+                n.op, ast.BitAnd) and 'self.index' in txt(n),
+            lambda n: parse_expr('self.index[kwd][kwarg] if itemids is None '
+                                 'else itemids & self.index[kwd][kwarg]'))
+        fun2 = find_func(tree, 'Browser.filter_by')
+        doc = [s_ for s_ in fun2.body if isinstance(s_, ast.Expr) and
+               isinstance(s_.value, ast.Constant)]
+        fun2.body = doc + parse_stmts(
+            'respids = self._filter_items_id_by(**kwargs)\n'
+            'if include or exclude:\n'
+            '    sincl, sexcl = set(include), set(exclude)\n'
+            '    respids -= {i for i in respids if not sincl.issubset('
+            'self.content[i]) or sexcl.intersection(self.content[i])}\n'
+            'lresp = [self.content[i] for i in sorted(respids)]\n'
+            'return Browser(lresp, data_key=self.data_key, '
+            'global_vars=self.globals)')
+        return ok
+    add('rejected-ids-removed-from-the-index-set', 'mutant',
+        reject_in_place, {'BRW-PURE'},
+        note='seeded C17-1: two cooperating sites - the id set of a single '
+             'criterion is the index set itself, filter_by then removes the '
+             'rejected ids in place')
+
     # ---- twins
     def and_equals(tree):
         fun = find_func(tree, 'Browser._filter_items_id_by')
